@@ -41,6 +41,57 @@ MUTATORS = re.compile(r"^std::vec::Vec::<T, A>::(dedup\w*|sort\w*|retain\w*|trun
 SPELLING_EQ = re.compile(r"^<serde_json::(Value|Number) as std::cmp::PartialEq>::(eq|ne)$|^core::slice::<impl \[T\]>::contains$|^<std::vec::Vec<.*> as std::cmp::PartialEq.*>::(eq|ne)$|^<serde_json::Map<.*> as std::cmp::PartialEq>::(eq|ne)$")
 
 
+def membership_loop(facts, ib, blocks, operand):
+    """`for e in haystack { if eq(e, needle) { return Ok(true) } } Ok(false)`: the key of `eq`, or None."""
+    from . import panic as PN
+    from .core import strip_payload, bool_edge, switch_edges_for_variant
+    from .opfacts import const_under_edge
+    for (h, bl, srcs) in PN.loops_of(ib):
+        if h not in blocks:
+            continue
+        nbi = [bi for bi in sorted(bl) if ib.blocks[bi]["term"]["k"] == "Call" and (callee_path(ib.blocks[bi]["term"]) or "").endswith("::next")]
+        if len(nbi) != 1:
+            continue
+        it = ib.trace(ib.blocks[nbi[0]]["term"]["args"][0])
+        if not expr_mentions(it, lambda x: x[0] == "downcast" and x[2] == "Array" and operand(x[1]) == 1):
+            continue
+        if expr_mentions(it, lambda x: x[0] == "call" and x[1] and re.search(r"(Iterator::|Iterator>::)(rev|skip|take|filter|step_by)$", x[1]["path"]) is not None):
+            continue
+
+        def is_elem(e):
+            x = strip_payload(strip_refs(e))
+            return x[0] == "call" and x[1] is not None and x[3] == nbi[0]
+
+        for sb in sorted(bl):
+            tt = ib.blocks[sb]["term"]
+            if tt["k"] != "SwitchInt" or tt.get("dty") != "bool":
+                continue
+            e = strip_refs(ib.trace(tt["discr"]))
+            if e[0] == "call" and e[1] and e[1]["local"] and len(e[2]) == 2:
+                a_ = [strip_refs(x) for x in e[2]]
+                if any(is_elem(x) for x in a_) and any(operand(x) == 0 for x in a_):
+                    hit = const_under_edge(ib, sb, True)
+                    # leaving the loop on the iterator's None edge returns false
+                    miss = None
+                    for xb in sorted(bl):
+                        t2 = ib.blocks[xb]["term"]
+                        if t2["k"] == "SwitchInt":
+                            d = ib.trace(t2["discr"])
+                            if d[0] == "discr" and strip_refs(d[1])[0] == "call" and strip_refs(d[1])[3] == nbi[0]:
+                                r = switch_edges_for_variant(ib, xb, "None")
+                                if r:
+                                    only = ib.reachable(r[0]) - bl
+                                    with ib.restricted(only):
+                                        rr = strip_refs(ib.trace(0))
+                                    if rr[0] == "agg" and rr[1].get("variant") == "Ok":
+                                        v_ = strip_refs(rr[2][0])
+                                        if v_[0] == "agg" and v_[1].get("variant") == "Bool" and strip_refs(v_[2][0])[0] == "const":
+                                            miss = const_value(strip_refs(v_[2][0])[1])
+                    if hit is True and miss is False:
+                        return e[1]["key"]
+    return None
+
+
 def merge_loop_form(ctx, facts, roles, mb, vecp, cfg):
     """merge written with loops: one outer loop over the operand list itself, one switch on the kind of its element;
     an Array element contributes a clone of each member through one inner loop over its payload, every other kind
@@ -251,6 +302,11 @@ def run(ctx):
                             kinds.append("ERR")
                         else:
                             kinds.append("?")
+                    if hv == "Array" and set(kinds) == {"CONST:true", "CONST:false"}:
+                        mem = membership_loop(facts, ib, blocks, operand)
+                        if mem:
+                            membership = mem
+                            kinds = ["MEMBERSHIP"]
                     got = "|".join(sorted(set(kinds)))
                     if hv == "Null":
                         want = "CONST:false"
